@@ -157,6 +157,64 @@ def parseStep : Nat → Toks → Option (Step × Toks)
     | _ => none
 end
 
+/-- decode one OCTET STRING from a complete encoding (`OctetString::take_from` at top level) -/
+def osOf (m : Mode) (enc : Bytes) : Res OS :=
+  let fuel := enc.length + 4
+  match runG (decodeTop m (fun c => do
+      let (os, c') ← takeValueIf c Tag.OCTET_STRING (OS.fromContent fuel)
+      pure (os, c'))) { data := enc, limit := none } with
+  | .ok (os, _) => .ok os
+  | .error e => .error e
+
+mutual
+/-- encoder trees (`enc`, `rt` requests) -/
+def parseEnc : Nat → Toks → Option (Enc × Toks)
+  | 0, _ => none
+  | fuel + 1, toks =>
+    match toks with
+    | "P" :: t :: "i" :: ty :: v :: r => do pure (.prim (← parseTag t) (.int (← parseIntTy ty) (← v.toInt?)), r)
+    | "P" :: t :: "b" :: b :: r => do pure (.prim (← parseTag t) (.bool (b == "1")), r)
+    | "P" :: t :: "n" :: r => do pure (.prim (← parseTag t) .null, r)
+    | "P" :: t :: "o" :: h :: r => do pure (.prim (← parseTag t) (.octets (← ofHex h)), r)
+    | "P" :: t :: "I" :: h :: r => do pure (.prim (← parseTag t) (.integer (← ofHex h)), r)
+    | "P" :: t :: "U" :: h :: r => do pure (.prim (← parseTag t) (.integer (← ofHex h)), r)
+    | "P" :: t :: "O" :: h :: r => do pure (.prim (← parseTag t) (.oid (← ofHex h)), r)
+    | "P" :: t :: "B" :: u :: h :: r => do
+      pure (.prim (← parseTag t) (.bits (UInt8.ofNat (← u.toNat?)) (← ofHex h)), r)
+    | "C" :: kind :: t :: r => do
+      let tag ← parseTag t
+      let tag' := if kind == "seq" then Tag.SEQUENCE else if kind == "set" then Tag.SET else tag
+      let (e, r') ← parseEnc fuel r
+      pure (.cons tag' e, r')
+    | "S" :: kind :: n :: r => do
+      let k ← (match kind with
+        | "tuple" => some SeqKind.tuple | "vec" => some .vec | "slice" => some .slice
+        | "iter" => some .iter | "slicefn" => some .sliceFn | _ => none)
+      let (es, r') ← parseEncMany fuel (← n.toNat?) r
+      pure (.seq k es, r')
+    | "N" :: r => some (.optNone, r)
+    | "J" :: r => do let (e, r') ← parseEnc fuel r; pure (.optSome e, r')
+    | "H" :: a :: i :: r => do let (e, r') ← parseEnc fuel r; pure (.choice (← a.toNat?) (← i.toNat?) e, r')
+    | "Z" :: r => some (.nothing, r)
+    | "K" :: m :: h :: r => do pure (.captured (← ofHex h) (← Mode.ofString m), r)
+    | "OS" :: t :: m :: h :: r => do
+      match osOf (← Mode.ofString m) (← ofHex h) with
+      | .ok os => pure (.octetString (← parseTag t) os, r)
+      | .error _ => none
+    | "OL" :: t :: h :: r => do pure (.octetSlice (← parseTag t) (← ofHex h), r)
+    | "W" :: m :: r => do let (e, r') ← parseEnc fuel r; pure (.wrapped (← Mode.ofString m) e, r')
+    | "BL" :: t :: u :: h :: r => do
+      pure (.bitSlice (← parseTag t) (UInt8.ofNat (← u.toNat?)) (← ofHex h), r)
+    | _ => none
+def parseEncMany : Nat → Nat → Toks → Option (List Enc × Toks)
+  | 0, _, _ => none
+  | _ + 1, 0, r => some ([], r)
+  | fuel + 1, k + 1, r => do
+    let (e, r') ← parseEnc fuel r
+    let (es, r'') ← parseEncMany fuel k r'
+    pure (e :: es, r'')
+end
+
 def parseScript (toks : Toks) : Option (List Step) :=
   match parseSteps (toks.length + 2) toks with
   | some (s, []) => some s
